@@ -272,13 +272,17 @@ def _cpu_hist(body):
     if unit.get("block_n") is not None:
         regs["I"] = unit["block_n"]
 
+    hist = CPU.HISTORY[unit["hist"]]
+    keep_halted = len(hist) > 3 and hist[3] == "keep-halted"
+
     def load(e, tag):
         for r, v in regs.items():
             e.regs.set(RN[r], v)
         e.regs.set(RN.PC, model.get("PC0", 0))
         for i in range(EMU.NUM_TEMP_REGISTERS):
             e.regs._values[RN[f"TEMP{i}"]] = model.get(f"{tag}TEMP{i}", 0)
-        e.state.halted = False
+        if not (keep_halted and tag == "b"):
+            e.state.halted = False
 
     def run(e):
         try:
@@ -291,7 +295,7 @@ def _cpu_hist(body):
     ea = EMU.Emulator(EMU.Memory(lambda a: ma.get(a, 0), lambda a, v: ma.__setitem__(a, v & 0xFF)), reset_on_init=False)
     load(ea, "a")
     ra = run(ea)
-    desc, hbytes, haddr = CPU.HISTORY[unit["hist"]]
+    desc, hbytes, haddr = hist[:3]
     haddr = addr if haddr is None else haddr
     hb = hbytes if hbytes is not None else code + [0] * 6
     hm = {}
@@ -317,7 +321,7 @@ def _cpu_hist(body):
             probs.append(f"{r}: fresh {ea.regs.get(RN[r]):#x}, after history {eb.regs.get(RN[r]):#x}")
     if {a: v for a, v in ma.items() if v} != {a: v for a, v in mb.items() if v}:
         probs.append("memory images differ")
-    if ea.state.halted != eb.state.halted:
+    if ea.state.halted != eb.state.halted and (not keep_halted or ea.state.halted):
         probs.append("halted differs")
     if probs:
         return 1, f"opcode {unit['opcode']:#x} after history '{desc}': " + "; ".join(probs)
